@@ -42,6 +42,160 @@ def _wrap_eval(expr, env, width):
         return None
 
 
+def _match_paren(src, open_at, op="(", cl=")"):
+    depth = 0
+    for i in range(open_at, len(src)):
+        if src[i] == op:
+            depth += 1
+        elif src[i] == cl:
+            depth -= 1
+            if depth == 0:
+                return i
+    return None
+
+
+_CMP = ("<=", ">=", "==", "!=", "<", ">")
+
+
+def _split_cmp(cond):
+    """`L op R` with exactly one top-level comparison operator and no boolean connective -> (L, op, R) or None"""
+    if re.search(r"&&|\|\||!(?!=)|\?", cond):
+        return None
+    depth, found = 0, []
+    i = 0
+    while i < len(cond):
+        c = cond[i]
+        if c == "(":
+            depth += 1
+        elif c == ")":
+            depth -= 1
+        elif depth == 0:
+            for op in _CMP:
+                if cond.startswith(op, i):
+                    found.append((i, op))
+                    i += len(op) - 1
+                    break
+        i += 1
+    if len(found) != 1:
+        return None
+    at, op = found[0]
+    return cond[:at].strip(), op, cond[at + len(op):].strip()
+
+
+def _strip_casts(expr):
+    """uintN(e) -> (e); returns (expr, narrowest N seen or None)"""
+    width = None
+    while True:
+        m = re.search(r"\buint(\d*)\s*\(", expr)
+        if not m:
+            return expr, width
+        end = _match_paren(expr, m.end() - 1)
+        if end is None:
+            return expr, width
+        w = int(m.group(1) or 256)
+        width = w if width is None else min(width, w)
+        expr = expr[:m.start()] + "(" + expr[m.end():end] + ")" + expr[end + 1:]
+
+
+def sol_guard(sol, qparam, qexpr):
+    """The guard(s) `verifyVM` really applies to the NUMBER of signatures: every `if (<cond>) { return (false, ...` and
+    `require(<cond>, ...)` of verifyVM whose condition - after inlining the function's typed straight-line locals and calls of
+    quorum() (by the extracted return expression of quorum()) - mentions `<vm>.signatures.length`.  Each must be ONE comparison
+    between two arithmetic expressions over the signature count k and the key count n.
+    -> ([(polarity, L, op, R)], narrowest cast width or None) with polarity 'reject' (if-return-false) / 'accept' (require);
+    raises ValueError(reason) for anything else (the caller reports a broken tie, never guesses)."""
+    m = re.search(r"function\s+verifyVM\s*\(\s*Structs\.VM\s+memory\s+(\w+)\s*\)[^{;]*\{", sol)
+    if not m:
+        raise ValueError("function verifyVM(Structs.VM memory <vm>) not found")
+    end = _match_paren(sol, m.end() - 1, "{", "}")
+    if end is None:
+        raise ValueError("verifyVM: unbalanced braces")
+    vm, body = m.group(1), sol[m.end():end]
+    g = re.search(r"Structs\.GuardianSet\s+memory\s+(\w+)\s*=\s*getGuardianSet\(\s*%s\.guardianSetIndex\s*\)" % re.escape(vm), body)
+    if not g:
+        raise ValueError("verifyVM: `Structs.GuardianSet memory <gs> = getGuardianSet(<vm>.guardianSetIndex)` not found")
+    gs = g.group(1)
+    k_tok = r"\b%s\.signatures\.length\b" % re.escape(vm)
+    n_tok = r"\b%s\.keys\.length\b" % re.escape(gs)
+    width = [None]
+
+    def norm(e, env):
+        e = re.sub(k_tok, "k__", e)
+        e = re.sub(n_tok, "n__", e)
+        for _ in range(8):  # locals, then quorum() calls, may nest
+            e2 = re.sub(r"\b[A-Za-z_]\w*\b", lambda t: "(" + env[t.group(0)] + ")" if t.group(0) in env else t.group(0), e)
+            q = re.search(r"\bquorum\s*\(", e2)
+            if q:
+                qe = _match_paren(e2, q.end() - 1)
+                if qe is None:
+                    raise ValueError("unbalanced quorum( call")
+                arg = e2[q.end():qe]
+                if qexpr is None:
+                    raise ValueError("verifyVM calls quorum() but its return expression could not be extracted")
+                inl = re.sub(r"\b%s\b" % re.escape(qparam), "(" + arg + ")", qexpr)
+                e2 = e2[:q.start()] + "(" + inl + ")" + e2[qe + 1:]
+            if e2 == e:
+                break
+            e = e2
+        e, w = _strip_casts(e)
+        if w is not None:
+            width[0] = w if width[0] is None else min(width[0], w)
+        return e
+
+    # typed straight-line locals of verifyVM (`uintN x = e;`), in textual order
+    env = {}
+    for d in re.finditer(r"\buint(\d*)\s+(\w+)\s*=\s*([^;]+);", body):
+        env[d.group(2)] = norm(d.group(3).strip(), env)
+        if d.group(1):
+            width[0] = int(d.group(1)) if width[0] is None else min(width[0], int(d.group(1)))
+    guards = []
+    for st in re.finditer(r"\b(if|require)\s*\(", body):
+        close = _match_paren(body, st.end() - 1)
+        if close is None:
+            raise ValueError("verifyVM: unbalanced parentheses")
+        inner = body[st.end():close]
+        if st.group(1) == "require":
+            # condition = up to the first top-level comma
+            depth, cut = 0, len(inner)
+            for i, c in enumerate(inner):
+                if c == "(":
+                    depth += 1
+                elif c == ")":
+                    depth -= 1
+                elif c == "," and depth == 0:
+                    cut = i
+                    break
+            cond, pol = inner[:cut], "accept"
+        else:
+            cond, pol = inner, "reject"
+        cn = norm(cond.strip(), env)
+        if "k__" not in cn:
+            continue
+        if pol == "reject" and not re.match(r"\s*\{\s*return\s*\(\s*false\s*,", body[close + 1:]):
+            raise ValueError("verifyVM: `if (%s)` mentions the signature count but is not followed by `{ return (false, ...`" % cond.strip())
+        parts = _split_cmp(cn)
+        if parts is None:
+            raise ValueError("verifyVM: condition `%s` on the signature count is not one comparison of two arithmetic expressions" % cond.strip())
+        guards.append((pol, parts[0], parts[1], parts[2], cond.strip()))
+    if not guards:
+        raise ValueError("verifyVM compares the signature count (<vm>.signatures.length) with nothing")
+    return guards, width[0]
+
+
+_LEANOP = {"<": "<", "<=": "≤", ">": ">", ">=": "≥", "==": "=", "!=": "≠"}
+_PYOP = {"<": lambda a, b: a < b, "<=": lambda a, b: a <= b, ">": lambda a, b: a > b, ">=": lambda a, b: a >= b,
+         "==": lambda a, b: a == b, "!=": lambda a, b: a != b}
+
+
+def guard_accepts(guards, n, k):
+    """does verifyVM's count guard let k signatures for n keys through (Python evaluation of the extracted comparisons)"""
+    for pol, L, op, R, _ in guards:
+        v = _PYOP[op](exprtrans.evaluate(L, {"n__": n, "k__": k}), exprtrans.evaluate(R, {"n__": n, "k__": k}))
+        if (pol == "reject" and v) or (pol == "accept" and not v):
+            return False
+    return True
+
+
 def extract(ctx):
     facts = {}
     # constants folded (tools/gofold); a straight-line body `x := e ... return e'` is inlined into one expression
@@ -119,12 +273,19 @@ def extract(ctx):
             ctx.gen_fail("C07", "guardianSize is no longer the 1-byte guardian count in " + RAL)
         if not re.search(r"let\s+signatureSize\s*=\s*u256From1Byte!\(byteVecSlice!\(data,\s*5,\s*6\)\)", ral):
             ctx.gen_fail("C07", "signatureSize is no longer byte 5 of the VAA in " + RAL)
-    # Solidity: the comparison that uses quorum()
-    sol_use = re.search(r"vm\.signatures\.length\s*<\s*quorum\(\s*(?:uint(\d*)\()?guardianSet\.keys\.length\s*\)?\)", sol)
-    if not sol_use:
-        ctx.gen_fail("C07", "`vm.signatures.length < quorum(guardianSet.keys.length)` rejection not found in " + SOL)
-    elif sol_use.group(1) is not None:
-        facts["_solWidth"] = min(facts.get("_solWidth", 256), int(sol_use.group(1) or 256))
+    # Solidity: the guard verifyVM applies to the signature count - whatever it is: a call of quorum() (inlined), a local holding
+    # it, or a comparison written out in place
+    try:
+        guards, gwidth = sol_guard(sol, facts["sol"][0] if "sol" in facts else None, facts["sol"][1] if "sol" in facts else None)
+        terms = []
+        for pol, L, op, R, txt in guards:
+            t = "decide (%s %s %s)" % (exprtrans.translate(L, {"n__": "n", "k__": "k"}), _LEANOP[op], exprtrans.translate(R, {"n__": "n", "k__": "k"}))
+            terms.append("!(%s)" % t if pol == "reject" else "(%s)" % t)
+        facts["_solGuard"] = (guards, " && ".join(terms))
+        if gwidth is not None:
+            facts["_solWidth"] = min(facts.get("_solWidth", 256), gwidth)
+    except (ValueError, exprtrans.TranslateError) as e:
+        ctx.gen_fail("C07", "the guard verifyVM applies to the signature count could not be extracted from %s: %s" % (SOL, e))
     # shape of the two contract-side signature loops (textual facts; the loops themselves are hand-modelled in
     # Whv/Model/Contract.lean): strictly ascending indices and positional ecrecover comparison
     facts["_solLoop"] = bool(re.search(r"require\(i == 0 \|\| sig\.guardianIndex > lastIndex,", sol)) and \
@@ -145,6 +306,7 @@ def gen(ctx):
     sol_unchecked = facts.pop("_solUnchecked", False)
     sol_loop = facts.pop("_solLoop", False)
     ral_loop = facts.pop("_ralLoop", False)
+    sol_guard_f = facts.pop("_solGuard", None)
     for k, lname in (("go", "goQuorum"), ("sol", "solQuorum"), ("ral", "ralQuorum")):
         if k not in facts:
             continue
@@ -157,8 +319,14 @@ def gen(ctx):
         lean_terms[k] = t
         defs.append("/-- from %s: `%s` -/\ndef %s (n : Nat) : Nat := %s\n" % (src, expr, lname, t))
     nq = len(defs)
+    if nq == 3 and sol_guard_f is None:
+        nq = 0  # already reported by gen_fail: the Gen file is not written, the proofs are not re-checked against stale facts
     if nq == 3:
         b = lambda x: "true" if x else "false"
+        defs.append("/-- Messages.sol verifyVM: does the guard on the NUMBER of signatures let `k` signatures for a set of `n` keys through - "
+                    "%s (calls of quorum() and straight-line locals inlined) -/\n"
+                    "def solAcceptsCount (n k : Nat) : Bool := %s\n"
+                    % ("; ".join("`%s`: %s" % (g[4], "rejected" if g[0] == "reject" else "required") for g in sol_guard_f[0]), sol_guard_f[1]))
         defs.append("/-- Messages.sol verifySignatures/verifyVM: non-empty set, `i == 0 || index > lastIndex`, positional ecrecover comparison (textual) -/\n"
                     "def solLoopShape : Bool := %s\n" % b(sol_loop))
         defs.append("/-- bit width of the Solidity quorum() parameter / call-site cast: under ^0.8 checked arithmetic an intermediate value "
@@ -170,6 +338,7 @@ def gen(ctx):
     ctx.cov["gen_facts"] = {k: {"source": v[2], "expr": v[1]} for k, v in facts.items() if not k.startswith("_")}
     facts["_solWidthKept"] = sol_width
     facts["_solUncheckedKept"] = sol_unchecked
+    facts["_solGuardKept"] = sol_guard_f[0] if sol_guard_f else None
     return facts, nq == 3
 
 
@@ -177,6 +346,7 @@ def run(ctx):
     facts, ok = gen(ctx)
     sol_width = facts.pop("_solWidthKept", 256)
     sol_unchecked = facts.pop("_solUncheckedKept", False)
+    sol_guards = facts.pop("_solGuardKept", None)
     if ok:
         ctx.prove(families=("processor", "evm", "explorer"))
     else:
@@ -215,6 +385,22 @@ def run(ctx):
                         got[k] = "revert"
             except Exception as e:  # noqa
                 got[k] = None
+        # what verifyVM APPLIES: the smallest signature count its guard lets through (nothing above it refused).  With the guard
+        # `count < quorum(n)` that is quorum(n) itself; it replaces the value of quorum()'s formula only when that formula is right
+        # and the guard is not (a wrong formula stays reported as before)
+        guard_k = None
+        if sol_guards is not None and got.get("sol") == want and sol_width >= 256 and n >= 1:
+            try:
+                acc = [guard_accepts(sol_guards, n, k) for k in range(0, 257)]
+                thr = acc.index(True) if True in acc else None
+                if thr is None or not all(acc[thr:]):
+                    guard_k = next(k for k in range(want, 257) if not acc[k])
+                    got["sol"] = "verifyVM refuses %d" % guard_k
+                elif thr != want:
+                    guard_k = thr if thr < want else want
+                    got["sol"] = thr
+            except Exception as e:  # noqa
+                got["sol"] = None
         evals += 1
         distinct.add((n % 3, table[n] - 2 * n // 3))
         if n in (0, 1, 2, 3, 4, 19, 255):
@@ -228,8 +414,10 @@ def run(ctx):
             if bad or not safe:
                 ctx.spec_violations.append({
                     "key": "quorum-mismatch:" + ",".join(sorted(bad) or ["bft"]),
-                    "what": "n=%d: %s, floor(2n/3)+1=%d" % (n, got, want),
-                    "replay": {"n": n, "values": got, "expected": want,
+                    "what": "n=%d: %s, floor(2n/3)+1=%d" % (n, got, want) +
+                            ("" if guard_k is None else "; Messages.sol verifyVM's own guard (%s) %s k=%d signatures of n=%d keys" % (
+                                " / ".join(g[4] for g in sol_guards), "accepts" if guard_accepts(sol_guards, n, guard_k) else "refuses", guard_k, n)),
+                    "replay": {"n": n, "k": guard_k, "values": got, "expected": want,
                                "sources": {k: v[2] for k, v in facts.items() if not k.startswith("_")}, "solQuorumWidth": sol_width}})
     ctx.cov["evaluations"] = evals
     ctx.cov["distinct_nontrivial"] = len(table)
@@ -241,6 +429,9 @@ def run(ctx):
     ctx.cov["trusted_base"] += [
         "tools/exprtrans.py + the regexes in checks/c07.py that locate the three formulas (validated against the compiled Go function on n=0..255 and 2^20..2^20+300)",
         "Solidity and Ralph integer semantics: uint/U256 truncating division on naturals (overflow impossible for n <= 255)",
+        "checks/c07.py sol_guard: locates in verifyVM every if-return-false / require whose condition mentions <vm>.signatures.length, inlines typed "
+        "straight-line locals and quorum() calls, accepts exactly one comparison of two + * / expressions over the two counts (anything else is a "
+        "reported extraction failure); Whv.Gen.C07.solAcceptsCount is that guard, sol_verifyvm_guard proves it equal to floor(2n/3)+1 <= k for all n, k",
         "Go int overflow ignored (n*10 < 2^63 for every slice length)",
     ]
     # --- "a VAA the node considers complete is accepted on chain": the real Processor's published / stored VAAs are judged by
@@ -262,7 +453,9 @@ def run(ctx):
     rule = ctx.cov["rule"]
     dist = ctx.cov.get("generator_distribution")
     c19.run_gate_for(ctx, c19.C07_CLAUSES)
-    ctx.cov["rule"] = rule + " | explorer gate: verifyVAA / Push with quorum-1, quorum and surplus signatures for every set size"
+    ctx.cov["rule"] = rule + (" | explorer gate: verifyVAA / Push with quorum-1, quorum and surplus signatures for every set size; after overtaken "
+                              "(overlapping / repeated) and far-ahead guardian-set fetches, VAAs naming set i with exactly a quorum of set j's guardians, "
+                              "sizes on growing and shrinking ladders")
     if dist is not None:
         ctx.cov["generator_distribution"] = dist
     ctx.assumptions += ["the contracts are never executed here (no solc / no Alephium VM): their formulas are tied by source translation only"]
